@@ -353,7 +353,9 @@ theorem contactCandidates_walk (a : Agent) (hinv : LInv a) (hv : ValOK a now) :
   split
   · rename_i hctl
     split
-    · exact valKeep_walk a hinv hv
+    · show Walk T0 now none Q a (valKeepAuto a now)
+      rw [valKeepAuto_off a now hv.2]
+      exact valKeep_walk a hinv hv
     · split
       · rename_i p hp
         refine nominate_walk a p hinv hctl ?_
@@ -877,11 +879,31 @@ theorem valKeep_nd (a : Agent) (t : Nat) : NoData (valKeep a t).2 := by
   · exact NoData.append h1 (keepalive_nd a1 t)
   · exact h1
 
+theorem autoRenom_nd (a : Agent) (t : Nat) : NoData (a.autoRenom t).2 := by
+  refine IceProofs.Auto.autoRenom_parts (P := fun x => NoData x.2) ?_ a NoData.nil
+  exact {
+    mark := fun _ _ _ _ h _ _ => h
+    ping := fun b _ l r h _ _ => NoData.append h (sendRequest_nd b t l r false none)
+    time := fun _ _ h => h
+    count := fun _ _ h => h
+    issue := fun b _ l r nom h _ _ _ _ _ => NoData.append h (sendRequest_nd b t l r true nom)
+    log := fun _ _ _ h => h }
+
+theorem valKeepAuto_nd (a : Agent) (t : Nat) : NoData (valKeepAuto a t).2 := by
+  unfold valKeepAuto
+  have h1 := validateSelected_nd a t
+  rcases hk : a.validateSelected t with ⟨a1, o1, ok⟩
+  rw [hk] at h1
+  simp only [] at h1 ⊢
+  split
+  · exact NoData.append (NoData.append h1 (keepalive_nd a1 t)) (autoRenom_nd _ t)
+  · exact h1
+
 theorem contactCandidates_nd (a : Agent) (t : Nat) : NoData (a.contactCandidates t).2 := by
   unfold Agent.contactCandidates
   split
   · split
-    · exact valKeep_nd a t
+    · exact valKeepAuto_nd a t
     · split
       · exact nominate_nd _ _ _
       · split
